@@ -7,6 +7,8 @@ CONSTANTS
   LensKind = "mixed"
   WithReload = TRUE
   ReloadBumpsVersion = TRUE
+  WithHideKeep = TRUE
+  Follow = FALSE
   WithScroll = TRUE
   DelayedSetsVersion <- TreeDelayedSetsVersion
 SPECIFICATION Spec
